@@ -212,8 +212,9 @@ namespace avel {
         static_assert(N < mask32x16u::width, "Specified index does not exist");
         typename std::enable_if<N < mask32x16u::width, int>::type dummy_variable = 0;
 
-        auto mask = b << N;
-        return mask32x16u{__mmask32((decay(m) & ~mask) | mask)};
+        auto bit = std::uint64_t(1) << N;
+        auto mask = std::uint64_t(b) << N;
+        return mask32x16u{__mmask32((decay(m) & ~bit) | mask)};
     }
 
 
